@@ -167,7 +167,18 @@ impl<'a> Gen<'a> {
         if k < 42 && !self.funs.is_empty() {
             let i = self.r.below(self.funs.len() as u64) as usize;
             let (name, n) = (self.funs[i].name.clone(), self.funs[i].nargs);
-            let args: Vec<String> = (0..n).map(|_| self.expr(vars, depth - 1)).collect();
+            // sometimes only constant arguments: such a call can be folded away, and a
+            // helper that is only ever called like that dies during code generation
+            let constant = self.r.chance(1, 14);
+            let args: Vec<String> = (0..n)
+                .map(|_| {
+                    if constant {
+                        format!("{}", self.r.range(1, 40))
+                    } else {
+                        self.expr(vars, depth - 1)
+                    }
+                })
+                .collect();
             return format!("({} {})", name, args.join(" "));
         }
         if k < 54 {
@@ -317,13 +328,53 @@ pub fn program(r: &mut Rng, dialect: usize, size: u32) -> String {
             is_macro: false,
         });
     }
-    let _ = g.funs.iter().filter(|f| f.is_macro).count();
+    // two helpers with identical bodies under different names (they compile to the same
+    // code, hence the same function hash in the symbol table)
+    if g.r.chance(1, 6) {
+        let body_fun: Vec<usize> = forms
+            .iter()
+            .enumerate()
+            .filter(|(_, f)| f.starts_with("(defun f"))
+            .map(|(i, _)| i)
+            .collect();
+        if !body_fun.is_empty() {
+            let ix = *g.r.pick(&body_fun);
+            let src = forms[ix].clone();
+            // "(defun fK (aK_0 ...) body)" -> "(defun gK (...) body)"; the twin keeps the
+            // argument names, which is enough for identical code
+            if let Some(rest) = src.strip_prefix("(defun f") {
+                let k: String = rest.chars().take_while(|c| c.is_ascii_digit()).collect();
+                let twin = format!("(defun g{}{}", k, &rest[k.len()..]);
+                forms.push(twin);
+                if let Some(n) = g
+                    .funs
+                    .iter()
+                    .find(|f| f.name == format!("f{}", k))
+                    .map(|f| f.nargs)
+                {
+                    g.funs.push(Fun {
+                        name: format!("g{}", k),
+                        nargs: n,
+                        is_macro: false,
+                    });
+                }
+            }
+        }
+    }
     g.budget = size as i32 + 6;
     let depth = g.r.range(2, 5) as i32;
     let main = if cse_rich && g.r.chance(1, 3) {
         g.cse_body(&["X".to_string(), "Y".to_string()])
     } else {
         g.expr(&["X".to_string(), "Y".to_string()], depth)
+    };
+    // a helper that is only ever called with a constant
+    let main = if g.r.chance(1, 6) {
+        let k = g.r.range(2, 9);
+        forms.push(format!("(defun hconst (N) (* N {}))", k));
+        format!("(c (hconst {}) {})", g.r.range(1, 9), main)
+    } else {
+        main
     };
     let sig = SIGILS[dialect];
     let inc = if sig.is_empty() {
